@@ -217,6 +217,20 @@ func (h *host) registerFunc(name, kind string) error {
 		if err := dr.ConvertAndAddFunction(name, func(f hostFlag) bool { return bool(f) }); err != nil {
 			return fmt.Errorf("registration of %s refused: %w", name, err)
 		}
+	case "add2": // converted functions of several parameters (a call refused for its second argument leaves nothing behind)
+		if err := dr.ConvertAndAddFunction(name, func(a, b hostCount) int { return int(a) + int(b) }); err != nil {
+			return fmt.Errorf("registration of %s refused: %w", name, err)
+		}
+	case "sumv":
+		if err := dr.ConvertAndAddFunction(name, func(first hostCount, rest ...hostCount) int {
+			n := int(first)
+			for _, r := range rest {
+				n += int(r)
+			}
+			return n
+		}); err != nil {
+			return fmt.Errorf("registration of %s refused: %w", name, err)
+		}
 	case "idint":
 		if err := dr.ConvertAndAddFunction(name, func(n hostCount) int { return int(n) }); err != nil {
 			return fmt.Errorf("registration of %s refused: %w", name, err)
